@@ -23,9 +23,9 @@ Theorem C08_exact_first r s d :
 Proof. exact (exact_first_name r s d). Qed.
 (** … and reports the definition's symbol — with [get_symbol] looking at exact entries first
     (the repair of F45; the model's defect switch [c_symexact]) … *)
-Theorem C08_exact_first_symbol r cand s d :
-  r_units r !! s = Some d → g_get_symbol r true cand s = Ok (u_symbol d).
-Proof. exact (exact_first_symbol_repaired r cand s d). Qed.
+Theorem C08_exact_first_symbol r hid cand s d :
+  r_units r !! s = Some d → hid s = false → g_get_symbol r true hid cand s = Ok (u_symbol d).
+Proof. exact (exact_first_symbol_repaired r hid cand s d). Qed.
 (** … whereas the unchanged [get_symbol] goes through the candidates: it reports the definition's
     symbol provided no prefixed reading of the string composes the same canonical name *)
 Theorem C08_exact_first_symbol_guarded r s d pd0 ks :
@@ -86,17 +86,17 @@ Proof. exact (offset_not_prefixable r s p u l pd ud). Qed.
 (** (i) with case sensitivity on, the lower-cased index is not consulted at all;
     (ii) with it off, a candidate differs from a letter-for-letter reading only in the case of the
          unit part; (iii) when the index covers the unit table, nothing is lost *)
-Theorem C08_casei_conservative nr s p u :
-  triplets_cs nr true s = triplets (n_reg nr) s
-  ∧ (casei_sound nr → In (p, u) (triplets_cs nr false s) →
+Theorem C08_casei_conservative nr hid s p u :
+  triplets_cs nr nohid true s = triplets (n_reg nr) s
+  ∧ (casei_sound nr → In (p, u) (triplets_cs nr hid false s) →
      ∃ suffix pk real, In suffix suffixes ∧ In pk (r_prefix_keys (n_reg nr)) ∧
        String.prefix pk s = true ∧ ends_with suffix s = true ∧
        lower real = lower (strip_name s pk suffix) ∧
        ∃ pd d, r_prefixes (n_reg nr) !! pk = Some pd ∧ r_units (n_reg nr) !! real = Some d ∧
                p = p_name pd ∧ u = u_name d)
-  ∧ (casei_covers nr → In (p, u) (triplets_cs nr true s) → In (p, u) (triplets_cs nr false s)).
+  ∧ (casei_covers nr → In (p, u) (triplets_cs nr nohid true s) → In (p, u) (triplets_cs nr hid false s)).
 Proof.
-  split; [exact (triplets_cs_true nr s) | split; [exact (casei_only_case nr s p u) | exact (casei_superset nr s p u)]].
+  split; [exact (triplets_cs_true nr s) | split; [exact (casei_only_case nr hid s p u) | exact (casei_superset nr hid s p u)]].
 Qed.
 (** the index of a registry as loaded is sound *)
 Theorem C08_casei_index_sound ds nr : nload ds = Ok nr → casei_sound nr.
@@ -159,11 +159,25 @@ Proof. exact (history_independent_guarded r hist s). Qed.
 (** after warm-up the case-insensitive index no longer covers the table: "millikiloinch" is
     accepted letter-for-letter but not case-insensitively *)
 Theorem C08_casei_covers_refuted :
-  ∃ nr s, n_cand nr true s ≠ [] ∧ n_cand nr false s = [].
+  ∃ nr s, n_cand nr nohid true s ≠ [] ∧ n_cand nr nohid false s = [].
 Proof.
   exists (n_register (nreg_of default_raw) default_cfg true "kiloinch"), "millikiloinch".
   split; [vm_compute; discriminate | vm_compute; reflexivity].
 Qed.
+
+(** with the proposed repair switched on ([c_lazyfix]: lazily registered names are not spellings
+    and never replace an entry) the witnesses of F3 and F46 disappear *)
+Example C08_repaired_model_witnesses :
+  let fixed := Cfg true true true true in
+  let R := nreg_of default_raw in
+  let W := n_register (n_register R fixed true "kiloinch") fixed true "marcsecond" in
+  n_get_name W fixed true "kiloinch" = Ok "kiloinch"
+  ∧ n_get_name W fixed true "millikiloinch" = Err (EUndefined "millikiloinch")
+  ∧ n_get_name R fixed true "millikilogram" = Err (EUndefined "millikilogram")
+  ∧ n_get_name R default_cfg true "millikilogram" = Ok "millikilogram"
+  ∧ n_get_symbol W fixed true "mas" = Ok "mas"
+  ∧ n_get_symbol R fixed true "milliarcsecond" = Ok "mas".
+Proof. vmc. Qed.
 
 (** ** non-vacuity on the registry regenerated from /repo *)
 Example C08_default_registry_wfb : wf_namesb default_reg = true.
@@ -203,8 +217,8 @@ Example C08_default_registry_delta :
 Proof. vmc. Qed.
 Example C08_default_registry_casei :
   let R := nreg_of default_raw in
-  n_cand R true "kiloMETER" = [] ∧ n_cand R false "kiloMETER" = [("kilo", "meter")]
-  ∧ n_cand R false "KILOMETER" = []            (* prefixes are matched letter for letter *)
+  n_cand R nohid true "kiloMETER" = [] ∧ n_cand R nohid false "kiloMETER" = [("kilo", "meter")]
+  ∧ n_cand R nohid false "KILOMETER" = []            (* prefixes are matched letter for letter *)
   ∧ casei_sound R.
 Proof.
   split; [vm_compute; reflexivity|]. split; [vm_compute; reflexivity|]. split; [vm_compute; reflexivity|].
